@@ -102,7 +102,7 @@ func (l *Lexer) scanInLine() Token {
 	case ch == '"':
 		return l.scanQuotedCommodity()
 	case ch == '-' || ch == '+':
-		if l.nextIsCurrencySymbol() || l.nextIsLetterCommodity() || l.nextIsDigit() {
+		if l.nextIsCurrencySymbol() || l.nextIsLetterCommodity() || l.nextIsDigit() || l.nextIsQuote() {
 			return l.scanSign()
 		}
 		return l.scanText()
@@ -535,6 +535,11 @@ func (l *Lexer) nextIsDigit() bool {
 	return l.isDigit(l.input[l.pos+1])
 }
 
+// nextIsQuote reports whether a quoted commodity follows the sign (-"AB C" 5).
+func (l *Lexer) nextIsQuote() bool {
+	return l.pos+1 < len(l.input) && l.input[l.pos+1] == '"'
+}
+
 func (l *Lexer) nextIsLetterCommodity() bool {
 	pos := l.pos + 1
 	if pos >= len(l.input) {
@@ -544,6 +549,10 @@ func (l *Lexer) nextIsLetterCommodity() bool {
 		return false
 	}
 	for pos < len(l.input) && l.isLetter(l.input[pos]) {
+		pos++
+	}
+	// a commodity code may be separated from its number by blanks ("-USD 9.20")
+	for pos < len(l.input) && l.input[pos] == ' ' {
 		pos++
 	}
 	if pos >= len(l.input) {
